@@ -488,6 +488,8 @@ class Gen:
         self.allow = set(allow)
         self.q = Q()
         self.cur_event: Optional[str] = None
+        self.graft: Optional[str] = None
+        self.graft_done = False
 
     # --- sequences of objects, given the event variable `e` and outer object variables in scope
     def coll(self, e: str) -> Tuple[str, str]:
@@ -549,7 +551,30 @@ class Gen:
             return str(self.r.choice([0, 1, 2, 3, 30])), "i"
         return self.r.choice(["0.5", "1.5", "2.0", "30.0", "0.25"]), "d"
 
+    def _graft_scalar(self, e, scope, d, obj):
+        g = self.graft
+        o = obj if obj is not None else (scope[-1] if scope else None)
+        if g in SCALAR_GRAFTS_OBJ and o is None:
+            return None
+        self.graft_done = True
+        self.q.feat.add("graft:" + g)
+        if g in SCALAR_GRAFTS_OBJ:
+            return SCALAR_GRAFTS_OBJ[g].format(o=o), "d"
+        if g in SEQ_GRAFTS:
+            self.graft = None
+            s, _ = self.numseq(e, scope, max(d - 1, 0))
+            self.graft = g
+            return SEQ_GRAFTS[g].format(s=s), "d"
+        self.graft = None
+        a, _ = self.scalar(e, scope, max(d - 1, 0), obj)
+        self.graft = g
+        return SCALAR_GRAFTS[g].format(a=a), "d"
+
     def scalar(self, e: str, scope: List[str], d: int, obj: Optional[str] = None) -> Tuple[str, str]:
+        if self.graft and not self.graft_done and (self.graft in SCALAR_GRAFTS or self.graft in SCALAR_GRAFTS_OBJ or self.graft in SEQ_GRAFTS) and self.r.random() < 0.35:
+            r = self._graft_scalar(e, scope, d, obj)
+            if r is not None:
+                return r
         k = self.r.random()
         if d <= 0 or k < 0.3:
             return self.atom(scope, obj)
@@ -596,7 +621,18 @@ class Gen:
         return f"(-{a})", ka
 
     def pred(self, e: str, scope: List[str], d: int) -> str:
+        if self.graft in PRED_GRAFTS and not self.graft_done and self.r.random() < 0.5:
+            g = self.graft
+            self.graft_done = True
+            self.q.feat.add("graft:" + g)
+            self.graft = None
+            a, _ = self.scalar(e, scope, 0, obj=(scope[-1] if scope else None))
+            b, _ = self.scalar(e, scope, 0, obj=(scope[-1] if scope else None))
+            self.graft = g
+            return PRED_GRAFTS[g].format(a=a, b=b)
         k = self.r.random()
+        if scope and 0.32 <= k < 0.4:
+            return f"{scope[-1]}.isGood()"
         a, _ = self.scalar(e, scope, min(d, 1), obj=(scope[-1] if scope else None))
         b, _ = self.const() if self.r.random() < 0.6 else self.scalar(e, scope, 0, obj=(scope[-1] if scope else None))
         c = f"{a} {self.r.choice(['>', '<', '>=', '<=', '==', '!='])} {b}"
@@ -605,8 +641,6 @@ class Gen:
             return f"({c} {self.r.choice(['and', 'or'])} {self.pred(e, scope, d - 1)})"
         if d > 0 and k < 0.32:
             return f"(not {c})"
-        if scope and k < 0.4:
-            return f"{scope[-1]}.isGood()"
         return c
 
     # --- rows
@@ -708,3 +742,81 @@ class Gen:
 
 def gen_query(rng: random.Random, uni: Universe, depth: int = 3, allow=()) -> Tuple[str, Q]:
     return Gen(rng, uni, depth, allow).query()
+
+
+# ------------------------------------------------------------------------------------------------
+# malformed stream: one unsupported construct grafted into an otherwise valid query
+# ------------------------------------------------------------------------------------------------
+SCALAR_GRAFTS = {
+    "binop_floordiv": "({a}//2)",
+    "binop_matmul": "({a}@2)",
+    "binop_lshift": "({a}<<1)",
+    "binop_bitand": "({a}&1)",
+    "unop_invert": "(~{a})",
+    "value_as_seq_count": "{a}.Count()",
+    "value_as_seq_select": "{a}.Select(lambda z: z).Sum()",
+    "fstring": 'f"{{{a}}}"',
+    "set_literal": "{{{a}, 1}}",
+    "unknown_function": "frobnicate({a})",
+    "bare_lambda": "(lambda z: {a})",
+    "method_on_number": "({a}+0.5).foo()",
+    "complex_constant": "({a}+2j)",
+}
+SCALAR_GRAFTS_OBJ = {
+    "getattribute": '{o}.getAttribute("x")',
+    "kwargs": "{o}.pt(unit=1)",
+    "slice": "{o}.vals()[0:2].Count()",
+}
+SEQ_GRAFTS = {
+    "seq_arith": "({s}+1)",
+    "seq_neg": "(-{s})",
+    "agg_only": "{s}.Aggregate(lambda a, b: a + b)",
+    "agg_func_seed": "{s}.Aggregate(lambda z: z, lambda a, b: a + b)",
+    "agg_extra_arg": "{s}.Aggregate(0, lambda a, b: a + b, 1)",
+}
+PRED_GRAFTS = {
+    "cmp_chain": "0 < {a} < 10",
+    "cmp_in": "{a} in {b}",
+    "cmp_is": "{a} is {b}",
+}
+ROW_GRAFTS = ["raw_object", "raw_collection", "column_count_few", "column_count_many"]
+MD_GRAFTS = {
+    "md_unknown_type": {"metadata_type": "bogus_type", "name": "x"},
+    "md_missing_type": {"name": "x"},
+    "md_bad_inject_field": {"metadata_type": "inject_code", "name": "blk", "bogus_field": ["int x;"]},
+    "md_collection_extra_key": {"metadata_type": "add_atlas_event_collection_info", "name": "MyJets", "include_files": ["a.h"], "container_type": "xAOD::JetContainer", "element_type": "xAOD::Jet", "contains_collection": True, "what_is_this": 1},
+    "md_collection_elem_mismatch": {"metadata_type": "add_atlas_event_collection_info", "name": "MyJets", "include_files": ["a.h"], "container_type": "xAOD::JetContainer", "contains_collection": True},
+}
+ALL_GRAFTS = list(SCALAR_GRAFTS) + list(SCALAR_GRAFTS_OBJ) + list(SEQ_GRAFTS) + list(PRED_GRAFTS) + ROW_GRAFTS + list(MD_GRAFTS)
+
+
+def gen_grafted(rng: random.Random, uni: Universe, kind: str, depth: int = 2):
+    """-> (src, Q, extra metadata list).  Exactly one construct of class `kind` is grafted."""
+    for _ in range(200):
+        g = Gen(rng, uni, depth)
+        if kind in MD_GRAFTS:
+            src, q = g.query()
+            q.feat.add("graft:" + kind)
+            return src, q, [MD_GRAFTS[kind]]
+        if kind in ROW_GRAFTS:
+            v = g.q.var("e")
+            g.cur_event = v
+            s = g.objseq(v, [], 1)
+            c2, _ = g.scalar(v, [], 1)
+            q = g.q
+            q.feat.add("graft:" + kind)
+            if kind == "raw_object":
+                o = q.var("j")
+                src = rng.choice([f"ds.Select(lambda {v}: {s}.First())", f"ds.SelectMany(lambda {v}: {s}).Select(lambda {o}: ({o}, {o}.pt()))"])
+            elif kind == "raw_collection":
+                src = f"ds.Select(lambda {v}: {s})"
+            elif kind == "column_count_few":
+                src = f'ds.Select(lambda {v}: ({s}.Count(), {c2})).AsROOTTTree("f.root", "t", ["only"])'
+            elif kind == "column_count_many":
+                src = f'ds.Select(lambda {v}: {s}.Count()).AsROOTTTree("f.root", "t", ["a", "b"])'
+            return src, q, []
+        g.graft = kind
+        src, q = g.query()
+        if g.graft_done:
+            return src, q, []
+    raise RuntimeError("could not place graft " + kind)
